@@ -109,6 +109,19 @@ def shape_family(tier, seed):
     fam.append(make_shape([('present', 2, 1, 2), ('present', 3, 1, 3)], True, False, 3, 5))
     fam.append(make_shape([('present', 2, 2, 1), ('present', 3, 3, 2)], False, True, 3, 9))
     fam.append(make_shape([('present', 3, 1, 3)], False, False, 4, 11))
+    # systematic truncated family: the truncated segment starts at an index that is / is not a multiple of
+    # its chunk size, the partial chunk keeps r of nv1 values
+    for nv0 in (1, 2, 3):
+        for nc0 in (1, 2):
+            for nv1 in (2, 3, 4):
+                for r in range(1, nv1):
+                    if tier != 'thorough' and (nv0 + nc0 + nv1 + r) % 2:
+                        continue
+                    fam.append(make_shape([('present', nv0, 1, nc0), ('present', nv1, 1, 3)], False, False, 3,
+                                          (nv1 - r) * 4 + 2))
+    for nv0, nv1, r in ((1, 3, 1), (2, 3, 2), (3, 2, 1), (3, 4, 1)):
+        fam.append(make_shape([('present', nv0, nv0, 1), ('present', nv1, nv1, 3)], False, True, 3, (nv1 - r) * 8))
+        fam.append(make_shape([('present', nv0, 1, 2), ('present', nv1, 1, 2)], True, False, 3, (nv1 - r) * 4))
     # zero-length channel variants
     fam.append(make_shape([('present', 0, 2, 1)], False, False, 3, 0))
     fam.append(make_shape([('nodata', 0, 2, 1), ('nodata', 0, 1, 2)], False, False, 3, 0))
@@ -143,6 +156,9 @@ def shape_family(tier, seed):
         seen.add(key)
         try:
             enc = s1.build(sh)
+            if any(x.get('trunc') for x in sh) and any(tm.TYPES[t][1] is None for sg in enc.segs for (_, t, _) in sg['objs']):
+                continue            # truncated string segments are outside the property
+            truncated_expected(enc)
         except tm.Invalid:
             continue
         out.append(sh)
